@@ -33,11 +33,12 @@ RULE = (
     "the EquationSystem wrappers (workload eqsys); after every step all constrained slots are read and compared with the "
     "window model. Non-trivial = at least 3 applied set/shift operations or one rejected call; distinct = distinct "
     "sequence of (op kind, outcome, location, depth)."
+    ' Since the second session: values are unique with a fractional part (or integer-typed), additive increments may vanish, slots may be created in non-ascending index order, the eqsys machine has an interface whose id coincides with a subdomain id and may carry a variable of the same name, results are kept by the caller and re-verified later, the caller edits returned variable lists; drawn observation frequency; workloads driver / driver_mp observe the model usage inside the real time loop (flow, energy, contact mechanics, poromechanics, fracture damage, linear momentum balance).'
 )
 STATE_ABSTRACTION = "(per location: stored depth capped at 5, number of constrained slots, last op kind)"
 ASSUMPTIONS = [
     "writes go to index 0 (plus the model's initialisation write to all indices of a fresh slot), as in the statement",
-    "values are small integers stored as floats: additive results are exact, comparison is bitwise",
+    "values are multiples of 1/4 below 2**20 (floats with a fractional part, or integer-typed arrays): additive results are exact, comparison is bitwise",
 ]
 PROBES = ["observation_sparse", "observation_end", "slots_created_in_non_ascending_order", "result_kept_by_caller", "zero_increment", "caller_edits_returned_variable_list", "interface_variable_same_name", "interface_variable", "depth_changed_during_run", "shift_none_grows", "shift_on_empty", "additive_after_shift", "alias_probe_get", "alias_probe_set",
           "rejected_additive_empty", "rejected_negative_index", "rejected_no_index", "rejected_two_indices_get", "rejected_get_beyond_depth",
